@@ -14,6 +14,19 @@ fn conflict(a: &Acc, b: &Acc) -> bool {
     a.reads.iter().any(|t| b.writes.contains(t)) || a.writes.iter().any(|t| b.reads.contains(t)) || a.writes.iter().any(|t| b.writes.contains(t))
 }
 
+/// C12: every Data edge goes from the lower (rank, insertion index) to the higher
+fn direction_rule(g: &fn_graph::FnGraph<Acc>, user_edges: usize, desc: &str) {
+    let ranks = g.ranks();
+    for e in &g.graph.raw_edges()[user_edges..] {
+        let (s, t) = (e.source().index(), e.target().index());
+        let ok = ranks[s] < ranks[t] || (ranks[s] == ranks[t] && s < t);
+        if !ok {
+            println!("VIOLATION (C12: Data edge {s} (rank {}) -> {t} (rank {}) is not directed by (rank, insertion index)): {desc}", ranks[s].0, ranks[t].0);
+            std::process::exit(1);
+        }
+    }
+}
+
 fn main() {
     let seed = std::env::var("VERIF_SEED").ok().and_then(|s| s.parse().ok()).unwrap_or(1u64);
     let mut rng = Lcg(seed.wrapping_mul(104729) + 3);
@@ -60,6 +73,17 @@ fn main() {
         } }
         // acyclic
         if fn_graph::daggy::petgraph::algo::is_cyclic_directed(dag.graph()) { println!("VIOLATION (cycle): {desc}"); std::process::exit(1); }
+        direction_rule(&g, es.len(), &desc);
+    }
+    // C12 family: many functions writing one type, rank ties, ranks interleaved by insertion index (n > 20 matters for
+    // std's unstable sorts)
+    for n in [8usize, 21, 24, 32, 48] {
+        let mut b = FnGraphBuilder::new();
+        let ids: Vec<FnId> = (0..n).map(|i| b.add_fn(Acc { id: i, reads: vec![], writes: vec![0] })).collect();
+        let mut k = 0;
+        for i in (0..n - 1).step_by(3) { b.add_logic_edge(ids[i], ids[i + 1]).unwrap(); k += 1; }
+        let g = b.build();
+        direction_rule(&g, k, &format!("{n} writers of one type, logic edges i->i+1 for every third i"));
     }
     println!("OK: C11 statement holds on all explored builds");
 }
